@@ -220,7 +220,7 @@ class Ident:
         return s
 
 
-def gen_cxx(rng, nclasses, nfuncs):
+def gen_cxx(rng, nclasses, nfuncs, nsubst=1):
     """returns (source text, set of expected simplified qualified names)"""
     ids = Ident(rng)
     out, want = [], set()
@@ -336,10 +336,36 @@ def gen_cxx(rng, nclasses, nfuncs):
             out.append("template struct %s<int>;" % c)
             out.append("template struct %s<%s<char*> >;" % (c, c))
 
+    def subst_stress(path):
+        """functions whose parameter lists create many substitution candidates and then reuse them:
+        <seq-id> is base 36 (S_, S0_ .. S9_, SA_ .. SZ_, S10_ ..)"""
+        k = rng.choice([10, 19, 24, 40])
+        qs = [ids.new(2, 6) for _ in range(k)]
+        out.append(" ".join("struct %s {};" % q for q in qs))
+        for _ in range(2):
+            f = ids.new()
+            first = ["%s*" % q for q in qs[:rng.randrange(k // 2, k + 1)]]
+            reuse = [rng.choice(["%s*", "%s&", "const %s*", "%s**", "%s"]) % rng.choice(qs) for _ in range(rng.randrange(3, 9))]
+            out.append("void %s(%s) {}" % (f, ", ".join(first + reuse)))
+            want.add("::".join(path + [f]))
+        c = ids.new()
+        m = ids.new()
+        args = ", ".join(["%s&" % q for q in qs] + ["%s&" % rng.choice(qs[k // 2:]) for _ in range(4)])
+        out.append("struct %s { void %s(%s) const; %s(%s); };" % (c, m, args, c, args))
+        out.append("void %s::%s(%s) const {}" % (c, m, args))
+        out.append("%s::%s(%s) {}" % (c, c, args))
+        want.add("::".join(path + [c, m]))
+        want.add("::".join(path + [c, c]))
+
     top = ids.new()
     out.append("namespace %s {" % top)
     while nclasses > 0 or nfuncs > 0:
         emit_scope(1, [top])
+    for _ in range(nsubst):
+        sub = ids.new()
+        out.append("namespace %s {" % sub)
+        subst_stress([top, sub])
+        out.append("}")
     out.append("}")
     return "\n".join(out) + "\n", want
 
@@ -378,10 +404,10 @@ def strip_targs(s):
     return "".join(out)
 
 
-def cxx_corpus(ctx, nclasses, nfuncs):
+def cxx_corpus(ctx, nclasses, nfuncs, nsubst=1):
     """compile a generated translation unit with g++ and clang++; returns list of (mangled, want|None)"""
     rng = ctx.rng
-    src, want = gen_cxx(rng, nclasses, nfuncs)
+    src, want = gen_cxx(rng, nclasses, nfuncs, nsubst)
     d = os.path.join(ctx.scratch, "cxx")
     os.makedirs(d, exist_ok=True)
     cc_file = os.path.join(d, "corpus.cc")
@@ -962,7 +988,7 @@ def gen_cases(ctx):
         add(w, None, "legacy-witness")
     for n in unit_test_names():
         add(n, None, "unit-test")
-    for m, want, comps in cxx_corpus(ctx, ctx.n(10, 40), ctx.n(8, 30)):
+    for m, want, comps in cxx_corpus(ctx, ctx.n(10, 40), ctx.n(8, 30), ctx.n(1, 4)):
         add(m, want, "corpus:" + "+".join(comps))
     for m, want, comps in rust_corpus(ctx, ctx.n(8, 25)):
         add(m, want, "corpus:rustc")
